@@ -677,10 +677,12 @@ class VPKFileSystem(FileSystem[VPKFile]):
         # All VPK files use forward slashes.
         # FileInfo.dir has no trailing slash. Match whole folder names only, "materials" must not
         # include "materials2/...".
-        folder = folder.replace('\\', '/').rstrip('/')
+        folder = folder.replace('\\', '/').rstrip('/').casefold()
         subfolder = folder + '/'
         for file in self._name_to_file.values():
-            if not folder or file.dir == folder or file.dir.startswith(subfolder):
+            # VPKs preserve case, we are case-insensitive.
+            file_dir = file.dir.casefold()
+            if not folder or file_dir == folder or file_dir.startswith(subfolder):
                 yield File(self, file.filename, file)
 
     def open_bin(self, name: Union[str, File[Self]]) -> BinaryIO:
